@@ -1271,6 +1271,26 @@ func (t *State) payFee(tx *pb.Transaction, batch kvdb.Batch, block *pb.InternalB
 	return nil
 }
 
+// confirmedOnStateChain reports whether the transaction sits in a block that the state machine
+// has applied: a main-chain block not above the state's own block, the state itself being on the
+// main chain. (The ledger may be ahead of the state, or the state on another branch after a walk
+// that failed: then the question is left to the verification of the transaction.)
+func (t *State) confirmedOnStateChain(txid []byte) bool {
+	if !t.sctx.Ledger.IsTxInTrunk(txid) {
+		return false
+	}
+	tip, err := t.sctx.Ledger.QueryBlockHeader(t.latestBlockid)
+	if err != nil || !tip.InTrunk {
+		return false
+	}
+	confirmed, err := t.sctx.Ledger.QueryTransaction(txid)
+	if err != nil {
+		return false
+	}
+	blk, err := t.sctx.Ledger.QueryBlockHeader(confirmed.Blockid)
+	return err == nil && blk.InTrunk && blk.Height <= tip.Height
+}
+
 func (t *State) recoverUnconfirmedTx(undoList []*pb.Transaction) {
 	xTimer := timer.NewXTimer()
 	t.log.Info("start recover unconfirm tx", "tx_count", len(undoList))
@@ -1288,7 +1308,7 @@ func (t *State) recoverUnconfirmedTx(undoList []*pb.Transaction) {
 		// 检查交易是否已经被确认（被其他节点打包倒区块并广播了过来）
 		// (the test used to read "err != nil && isConfirm", which never holds: a confirmed
 		// transaction that still verifies - one that only reads keys, say - went back into the pool)
-		isConfirm := t.sctx.Ledger.IsTxInTrunk(tx.Txid)
+		isConfirm := t.confirmedOnStateChain(tx.Txid)
 		if isConfirm {
 			confirmCnt++
 			t.log.Info("this tx has been confirmed,ignore recover", "txid", hex.EncodeToString(tx.Txid))
